@@ -656,7 +656,7 @@ Proof.
   f_equal. rewrite IH. f_equal. ring.
 Qed.
 
-Lemma range_len_scale i0 i1 k s : 0 < s -> 0 < k -> range_len (i0 * s) (i1 * s) (k * s) = range_len i0 i1 k.
+Lemma range_len_scale_pos i0 i1 k s : 0 < s -> 0 < k -> range_len (i0 * s) (i1 * s) (k * s) = range_len i0 i1 k.
 Proof.
   intros Hs Hk. unfold range_len.
   replace (0 <? k * s) with true by (symmetry; apply Z.ltb_lt; nia).
@@ -671,18 +671,61 @@ Proof.
   - apply Z.ltb_ge in E. replace (i0 * s <? i1 * s) with false by (symmetry; apply Z.ltb_ge; nia). reflexivity.
 Qed.
 
-Lemma range_list_affine a s i0 i1 k : 0 < s -> 0 < k ->
+(* range(-x, -y, -k) has as many elements as range(x, y, k) *)
+Lemma range_len_opp x y k : range_len (- x) (- y) (- k) = range_len x y k.
+Proof.
+  unfold range_len. destruct (Z.ltb_spec 0 k) as [P | P].
+  - replace (0 <? - k) with false by (symmetry; apply Z.ltb_ge; lia).
+    replace (- k <? 0) with true by (symmetry; apply Z.ltb_lt; lia).
+    replace (- y <? - x) with (x <? y)
+      by (destruct (Z.ltb_spec x y); symmetry; [apply Z.ltb_lt | apply Z.ltb_ge]; lia).
+    replace (- x - - y - 1) with (y - x - 1) by ring. rewrite Z.opp_involutive. reflexivity.
+  - destruct (Z.ltb_spec k 0) as [N | N].
+    + replace (0 <? - k) with true by (symmetry; apply Z.ltb_lt; lia).
+      replace (- x <? - y) with (y <? x)
+        by (destruct (Z.ltb_spec y x); symmetry; [apply Z.ltb_lt | apply Z.ltb_ge]; lia).
+      replace (- y - - x - 1) with (x - y - 1) by ring. reflexivity.
+    + assert (k = 0) as -> by lia. reflexivity.
+Qed.
+
+(* the increment s may have either sign; the ordinal stride k is positive *)
+Lemma range_len_scale i0 i1 k s : s <> 0 -> 0 < k -> range_len (i0 * s) (i1 * s) (k * s) = range_len i0 i1 k.
+Proof.
+  intros Hs Hk. destruct (Z_lt_le_dec 0 s) as [P | N]; [apply range_len_scale_pos; assumption |].
+  rewrite <- range_len_opp.
+  replace (- (i0 * s)) with (i0 * (- s)) by ring. replace (- (i1 * s)) with (i1 * (- s)) by ring.
+  replace (- (k * s)) with (k * (- s)) by ring. apply range_len_scale_pos; lia.
+Qed.
+
+Lemma range_len_shift a x y k : range_len (a + x) (a + y) k = range_len x y k.
+Proof.
+  unfold range_len.
+  replace (a + x <? a + y) with (x <? y)
+    by (destruct (Z.ltb_spec x y); symmetry; [apply Z.ltb_lt | apply Z.ltb_ge]; lia).
+  replace (a + y <? a + x) with (y <? x)
+    by (destruct (Z.ltb_spec y x); symmetry; [apply Z.ltb_lt | apply Z.ltb_ge]; lia).
+  replace (a + y - (a + x) - 1) with (y - x - 1) by ring.
+  replace (a + x - (a + y) - 1) with (x - y - 1) by ring. reflexivity.
+Qed.
+
+(* the coordinates at the ordinals range(i0, i1, k) are range(a + i0*s, a + i1*s, k*s): ascending AND descending axes *)
+Lemma range_list_affine a s i0 i1 k : s <> 0 -> 0 < k ->
   map (fun i => a + i * s) (range_list i0 i1 k) = range_list (a + i0 * s) (a + i1 * s) (k * s).
 Proof.
   intros Hs Hk. unfold range_list. rewrite map_range_nat. f_equal. f_equal.
-  rewrite <- (range_len_scale i0 i1 k s Hs Hk). unfold range_len.
-  replace (a + i0 * s <? a + i1 * s) with (i0 * s <? i1 * s)
-    by (destruct (i0 * s <? i1 * s) eqn:E; symmetry; [apply Z.ltb_lt in E; apply Z.ltb_lt | apply Z.ltb_ge in E; apply Z.ltb_ge]; lia).
-  replace (a + i1 * s <? a + i0 * s) with (i1 * s <? i0 * s)
-    by (destruct (i1 * s <? i0 * s) eqn:E; symmetry; [apply Z.ltb_lt in E; apply Z.ltb_lt | apply Z.ltb_ge in E; apply Z.ltb_ge]; lia).
-  replace (a + i1 * s - (a + i0 * s) - 1) with (i1 * s - i0 * s - 1) by ring.
-  replace (a + i0 * s - (a + i1 * s) - 1) with (i0 * s - i1 * s - 1) by ring. reflexivity.
+  rewrite range_len_shift. symmetry. apply range_len_scale; assumption.
 Qed.
+
+Lemma bind_if_return {A B} (b : bool) (x y : A) (f : A -> outcome B) :
+  bind (if b then Return x else Return y) f = f (if b then x else y).
+Proof. destruct b; reflexivity. Qed.
+
+Lemma bind_rejected {A B} (m : outcome A) (f : A -> outcome B) :
+  rejected m = true \/ (forall x, rejected (f x) = true) -> rejected (bind m f) = true.
+Proof. destruct m as [x | e]; cbn [bind rejected]; intros [H | H]; auto; discriminate. Qed.
+
+(* the direction of an axis as _check_subscripts computes it from the increment *)
+Definition sub_sign (s : Z) : Z := if s <? 0 then - 1 else 1.
 
 Section Subvolume.
 Variables (a s : Z) (n : nat).
@@ -690,21 +733,35 @@ Hypothesis Hs : s <> 0.
 Hypothesis Hn : (2 <= n)%nat.
 Let coords := axis a s n.
 Let past := a + Z.of_nat n * s.
+Let sg := sub_sign s.
 
 (* closed forms of the GENERATED _check_subscripts / _get_index_subscripts on a regular axis *)
 Lemma sub_check_axis sl :
   sub_check_subscripts sl coords =
-  bind (match sl_start sl with Some v => if (a <=? v) && (v <? past) then Return tt else Raise IndexErr | None => Return tt end) (fun _ =>
-  bind (match sl_stop sl with Some v => if (a <? v) && (v <=? past) then Return tt else Raise IndexErr | None => Return tt end) (fun _ =>
+  bind (match sl_start sl with Some v => if (sg * a <=? sg * v) && (sg * v <? sg * past) then Return tt else Raise IndexErr | None => Return tt end) (fun _ =>
+  bind (match sl_stop sl with Some v => if (sg * a <? sg * v) && (sg * v <=? sg * past) then Return tt else Raise IndexErr | None => Return tt end) (fun _ =>
   match sl_step sl with Some k => if k mod s =? 0 then Return tt else Raise IndexErr | None => Return tt end)).
 Proof.
   unfold sub_check_subscripts, coords. rewrite seq_get_axis_0, seq_get_axis_1, seq_get_axis_last by lia.
-  cbn [bind]. unfold py_mod. replace (a + s - a) with s by ring.
-  replace (s =? 0) with false by (symmetry; apply Z.eqb_neq; exact Hs). cbn [bind].
-  replace (a + (Z.of_nat n - 1) * s + (a + s) - a) with past by (unfold past; ring).
-  destruct (sl_start sl) as [v|]; [destruct ((a <=? v) && (v <? past)) |]; cbn [bind]; try reflexivity;
-    (destruct (sl_stop sl) as [w|]; [destruct ((a <? w) && (w <=? past)) |]; cbn [bind]; try reflexivity;
+  cbn [bind]. replace (a + s - a) with s by ring. rewrite bind_if_return. fold (sub_sign s). cbn [bind]. fold sg.
+  unfold py_mod. replace (s =? 0) with false by (symmetry; apply Z.eqb_neq; exact Hs). cbn [bind].
+  replace (a + (Z.of_nat n - 1) * s + s) with past by (unfold past; ring).
+  destruct (sl_start sl) as [v|]; [destruct ((sg * a <=? sg * v) && (sg * v <? sg * past)) |]; cbn [bind]; try reflexivity;
+    (destruct (sl_stop sl) as [w|]; [destruct ((sg * a <? sg * w) && (sg * w <=? sg * past)) |]; cbn [bind]; try reflexivity;
      (destruct (sl_step sl) as [k|]; [destruct (k mod s =? 0) |]; reflexivity)).
+Qed.
+
+(* the sign-generic range tests in plain terms *)
+Lemma start_test_spec v : (sg * a <=? sg * v) && (sg * v <? sg * past) = true <-> sub_start_inside a s n v.
+Proof.
+  unfold sub_start_inside. fold past. rewrite andb_true_iff, Z.leb_le, Z.ltb_lt. unfold sg, sub_sign.
+  destruct (Z.ltb_spec s 0) as [N | P]; lia.
+Qed.
+
+Lemma stop_test_spec w : (sg * a <? sg * w) && (sg * w <=? sg * past) = true <-> sub_stop_inside a s n w.
+Proof.
+  unfold sub_stop_inside. fold past. rewrite andb_true_iff, Z.leb_le, Z.ltb_lt. unfold sg, sub_sign.
+  destruct (Z.ltb_spec s 0) as [N | P]; lia.
 Qed.
 
 Lemma sub_index_axis sl :
@@ -723,14 +780,14 @@ Proof.
      (destruct (sl_step sl) as [k|]; reflexivity)).
 Qed.
 
-(* ascending axis: a slice of the documented form passes the checks, and the ordinals handed to read_subvolume with the
-   stride applied to its result select exactly the coordinates range(start, stop, step) *)
-Theorem subvolume_axis_agree sl : 0 < s -> sub_slice_ok a s n sl = true ->
+(* an axis of EITHER direction: a slice of the documented form passes the checks, and the ordinals handed to read_subvolume
+   with the stride applied to its result select exactly the coordinates range(start, stop, step), in axis order *)
+Theorem subvolume_axis_agree sl : sub_slice_ok a s n sl = true ->
   sub_check_subscripts sl coords = Return tt /\
   exists i0 k i1, sub_get_index_subscripts sl coords = Return (i0, k, i1) /\ 0 <= i0 /\ i1 <= Z.of_nat n /\ 0 < k /\
     map (fun i => a + i * s) (range_list i0 i1 k) = sub_coords a s n sl.
 Proof.
-  intros Hpos Hok. unfold sub_slice_ok in Hok. rewrite !andb_true_iff in Hok. destruct Hok as [[Hst Hsp] Hk].
+  intros Hok. unfold sub_slice_ok in Hok. rewrite !andb_true_iff in Hok. destruct Hok as [[Hst Hsp] Hk].
   (* start *)
   assert (exists i0, 0 <= i0 < Z.of_nat n /\ match sl_start sl with Some v => v | None => a end = a + i0 * s /\
           match sl_start sl with Some v => coord_to_index v coords | None => Return 0 end = Return i0) as (i0 & Hi0 & Est & Ei0).
@@ -761,28 +818,58 @@ Proof.
     - exists 1. split; [lia | split; [ring | reflexivity]]. }
   split.
   - rewrite sub_check_axis.
-    assert (match sl_start sl with Some v => if (a <=? v) && (v <? past) then Return tt else Raise IndexErr | None => Return tt end = Return tt) as ->.
+    assert (match sl_start sl with Some v => if (sg * a <=? sg * v) && (sg * v <? sg * past) then Return tt else Raise IndexErr | None => Return tt end = Return tt) as ->.
     { destruct (sl_start sl) as [v|]; [| reflexivity]. cbn in Est. subst v.
-      replace ((a <=? a + i0 * s) && (a + i0 * s <? past)) with true; [reflexivity |].
-      symmetry. apply andb_true_iff. split; [apply Z.leb_le | apply Z.ltb_lt]; unfold past; nia. }
-    assert (match sl_stop sl with Some v => if (a <? v) && (v <=? past) then Return tt else Raise IndexErr | None => Return tt end = Return tt) as ->.
+      replace ((sg * a <=? sg * (a + i0 * s)) && (sg * (a + i0 * s) <? sg * past)) with true; [reflexivity |].
+      symmetry. apply start_test_spec. unfold sub_start_inside. fold past. unfold past.
+      destruct (Z_lt_le_dec 0 s); [left | right]; nia. }
+    assert (match sl_stop sl with Some v => if (sg * a <? sg * v) && (sg * v <=? sg * past) then Return tt else Raise IndexErr | None => Return tt end = Return tt) as ->.
     { destruct (sl_stop sl) as [v|]; [| reflexivity]. cbn in Esp. subst v.
-      replace ((a <? a + i1 * s) && (a + i1 * s <=? past)) with true; [reflexivity |].
-      symmetry. apply andb_true_iff. split; [apply Z.ltb_lt | apply Z.leb_le]; unfold past; nia. }
+      replace ((sg * a <? sg * (a + i1 * s)) && (sg * (a + i1 * s) <=? sg * past)) with true; [reflexivity |].
+      symmetry. apply stop_test_spec. unfold sub_stop_inside. fold past. unfold past.
+      destruct (Z_lt_le_dec 0 s); [left | right]; nia. }
     cbn [bind]. destruct (sl_step sl) as [c|]; [| reflexivity].
     apply andb_true_iff in Hk. destruct Hk as [Hm _]. rewrite Hm. reflexivity.
   - exists i0, k, i1. rewrite sub_index_axis, Ei0, Ei1, Ekk. cbn [bind].
     split; [reflexivity | split; [lia | split; [lia | split; [exact Hk0 |]]]].
-    rewrite (range_list_affine a s i0 i1 k Hpos Hk0). unfold sub_coords. fold past. rewrite Est, Esp, Ek. reflexivity.
+    rewrite (range_list_affine a s i0 i1 k Hs Hk0). unfold sub_coords. fold past. rewrite Est, Esp, Ek. reflexivity.
 Qed.
 
-(* a start outside [first, one-past-last) and a stop outside (first, one-past-last] are rejected on an ascending axis *)
-Theorem subvolume_start_outside_rejected sl v : sl_start sl = Some v -> ~ (a <= v < past) ->
+(* _check_subscripts raises nothing but IndexError on a regular axis *)
+Lemma sub_check_axis_outcome sl : sub_check_subscripts sl coords = Return tt \/ sub_check_subscripts sl coords = Raise IndexErr.
+Proof.
+  rewrite sub_check_axis.
+  destruct (sl_start sl) as [v|]; [destruct ((sg * a <=? sg * v) && (sg * v <? sg * past)) |]; cbn [bind]; auto;
+    (destruct (sl_stop sl) as [w|]; [destruct ((sg * a <? sg * w) && (sg * w <=? sg * past)) |]; cbn [bind]; auto;
+     (destruct (sl_step sl) as [k|]; [destruct (k mod s =? 0) |]; auto)).
+Qed.
+
+(* a start outside [first, one-past-last) along the axis direction is rejected: ascending and descending axes *)
+Theorem subvolume_start_outside_rejected sl v : sl_start sl = Some v -> ~ sub_start_inside a s n v ->
   sub_check_subscripts sl coords = Raise IndexErr.
 Proof.
   intros E Hv. rewrite sub_check_axis, E.
-  replace ((a <=? v) && (v <? past)) with false; [reflexivity |].
-  symmetry. apply andb_false_iff. destruct (Z_lt_le_dec v a); [left; apply Z.leb_gt; lia | right; apply Z.ltb_ge; lia].
+  replace ((sg * a <=? sg * v) && (sg * v <? sg * past)) with false; [reflexivity |].
+  symmetry. apply not_true_is_false. intros T. apply Hv. apply start_test_spec. exact T.
+Qed.
+
+(* a stop outside (first, one-past-last] along the axis direction is rejected *)
+Theorem subvolume_stop_outside_rejected sl w : sl_stop sl = Some w -> ~ sub_stop_inside a s n w ->
+  sub_check_subscripts sl coords = Raise IndexErr.
+Proof.
+  intros E Hw. rewrite sub_check_axis, E.
+  replace ((sg * a <? sg * w) && (sg * w <=? sg * past)) with false.
+  - destruct (sl_start sl) as [v|]; [destruct ((sg * a <=? sg * v) && (sg * v <? sg * past)) |]; reflexivity.
+  - symmetry. apply not_true_is_false. intros T. apply Hw. apply stop_test_spec. exact T.
+Qed.
+
+(* a step that is no multiple of the increment is rejected *)
+Theorem subvolume_step_not_multiple_rejected sl c : sl_step sl = Some c -> c mod s <> 0 ->
+  sub_check_subscripts sl coords = Raise IndexErr.
+Proof.
+  intros E Hc. rewrite sub_check_axis, E. replace (c mod s =? 0) with false by (symmetry; apply Z.eqb_neq; exact Hc).
+  destruct (sl_start sl) as [v|]; [destruct ((sg * a <=? sg * v) && (sg * v <? sg * past)) |]; cbn [bind]; try reflexivity;
+    (destruct (sl_stop sl) as [w|]; [destruct ((sg * a <? sg * w) && (sg * w <=? sg * past)) |]; reflexivity).
 Qed.
 
 (* a start inside the extent that is no coordinate of the axis is rejected by coord_to_index *)
@@ -790,16 +877,92 @@ Theorem subvolume_start_off_axis_rejected sl v : sl_start sl = Some v -> ~ In v 
   sub_get_index_subscripts sl coords = Raise IndexErr.
 Proof. intros E Hv. rewrite sub_index_axis, E. rewrite coord_to_index_absent by exact Hv. reflexivity. Qed.
 
-(* finding D27: on a DESCENDING axis every explicit start or stop is refused, also existing coordinates *)
-Theorem subvolume_descending_refused sl : s < 0 -> (sl_start sl <> None \/ sl_stop sl <> None) ->
-  sub_check_subscripts sl coords = Raise IndexErr.
+(* ... and so is a stop that is neither a coordinate nor the one-past-the-end sentinel *)
+Theorem subvolume_stop_off_axis_rejected sl w : sl_stop sl = Some w -> ~ In w coords -> w <> past ->
+  sub_get_index_subscripts sl coords = Raise IndexErr.
 Proof.
-  intros Hneg Hb. rewrite sub_check_axis. assert (past < a) as Hp by (unfold past; nia).
+  intros E Hw Hp. rewrite sub_index_axis, E. replace (w =? past) with false by (symmetry; apply Z.eqb_neq; exact Hp).
+  rewrite (coord_to_index_absent w coords Hw).
+  destruct (sl_start sl) as [v|]; [| reflexivity].
+  destruct (coord_to_index v coords) as [i | e] eqn:Ev; [reflexivity |].
+  cbn [bind]. f_equal. exact (index_of_raise v coords 0 e Ev).
+Qed.
+
+(* _get_index_subscripts raises nothing but IndexError on a regular axis *)
+Lemma sub_index_axis_raise sl e : sub_get_index_subscripts sl coords = Raise e -> e = IndexErr.
+Proof.
+  rewrite sub_index_axis.
   destruct (sl_start sl) as [v|].
-  - replace ((a <=? v) && (v <? past)) with false; [reflexivity |].
-    symmetry. apply andb_false_iff. destruct (Z_lt_le_dec v a); [left; apply Z.leb_gt; lia | right; apply Z.ltb_ge; lia].
-  - cbn [bind]. destruct (sl_stop sl) as [w|]; [| destruct Hb as [Hb | Hb]; congruence].
-    replace ((a <? w) && (w <=? past)) with false; [reflexivity |].
-    symmetry. apply andb_false_iff. destruct (Z_lt_le_dec a w); [right; apply Z.leb_gt; lia | left; apply Z.ltb_ge; lia].
+  - destruct (coord_to_index v coords) as [i | e1] eqn:Ev; cbn [bind].
+    + destruct (sl_stop sl) as [w|]; [| discriminate].
+      destruct (w =? past); [discriminate |].
+      destruct (coord_to_index w coords) as [j | e2] eqn:Ew; cbn [bind]; [discriminate |].
+      intros [= <-]. exact (index_of_raise w coords 0 e2 Ew).
+    + intros [= <-]. exact (index_of_raise v coords 0 e1 Ev).
+  - cbn [bind]. destruct (sl_stop sl) as [w|]; [| discriminate].
+    destruct (w =? past); [discriminate |].
+    destruct (coord_to_index w coords) as [j | e2] eqn:Ew; cbn [bind]; [discriminate |].
+    intros [= <-]. exact (index_of_raise w coords 0 e2 Ew).
+Qed.
+
+Lemma sub_index_bad sl : sub_start_bad a s n sl \/ sub_stop_bad a s n sl ->
+  sub_get_index_subscripts sl coords = Raise IndexErr.
+Proof.
+  intros [(v & E & Hv) | (w & E & Hw & Hp)].
+  - exact (subvolume_start_off_axis_rejected sl v E Hv).
+  - exact (subvolume_stop_off_axis_rejected sl w E Hw Hp).
 Qed.
 End Subvolume.
+
+(* ------------------------------------------------------------------ subvolume[a:b:c, d:e:f, g:h:i]: the three axes *)
+Section Subvolume3.
+Variables (a1 s1 a2 s2 a3 s3 : Z) (n1 n2 n3 : nat).
+Hypothesis Hs1 : s1 <> 0.
+Hypothesis Hs2 : s2 <> 0.
+Hypothesis Hs3 : s3 <> 0.
+Hypothesis Hn1 : (2 <= n1)%nat.
+Hypothesis Hn2 : (2 <= n2)%nat.
+Hypothesis Hn3 : (2 <= n3)%nat.
+
+(* what one axis of the result must be: ordinals first..end (exclusive) inside the axis, a positive stride, and the
+   coordinates at range(first, end, stride) are exactly Python's range(start, stop, step) over coordinates *)
+Definition sub_axis_reads (a s : Z) (n : nat) (sl : pyslice) (t : Z * Z * Z) : Prop :=
+  let '(i0, i1, k) := t in
+  0 <= i0 /\ i1 <= Z.of_nat n /\ 0 < k /\ map (fun i => a + i * s) (range_list i0 i1 k) = sub_coords a s n sl.
+
+Theorem subvolume_getitem_agree il xl z :
+  sub_slice_ok a1 s1 n1 il = true -> sub_slice_ok a2 s2 n2 xl = true -> sub_slice_ok a3 s3 n3 z = true ->
+  exists ti tx tz, sub_getitem (axis a1 s1 n1) (axis a2 s2 n2) (axis a3 s3 n3) il xl z = Return (ti, tx, tz) /\
+    sub_axis_reads a1 s1 n1 il ti /\ sub_axis_reads a2 s2 n2 xl tx /\ sub_axis_reads a3 s3 n3 z tz.
+Proof.
+  intros O1 O2 O3.
+  destruct (subvolume_axis_agree a1 s1 n1 Hs1 Hn1 il O1) as (C1 & i0 & ki & i1 & G1 & A1).
+  destruct (subvolume_axis_agree a2 s2 n2 Hs2 Hn2 xl O2) as (C2 & x0 & kx & x1 & G2 & A2).
+  destruct (subvolume_axis_agree a3 s3 n3 Hs3 Hn3 z O3) as (C3 & z0 & kz & z1 & G3 & A3).
+  exists (i0, i1, ki), (x0, x1, kx), (z0, z1, kz).
+  unfold sub_getitem. rewrite C1, C2, C3, G1, G2, G3. cbn [bind].
+  split; [reflexivity |]. unfold sub_axis_reads. tauto.
+Qed.
+
+(* a start that is no coordinate of its axis, or a stop that is neither a coordinate nor the one-past-the-end value, on ANY
+   of the three axes: the whole expression is rejected (by _check_subscripts or by coord_to_index) *)
+Theorem subvolume_getitem_rejects il xl z :
+  (sub_start_bad a1 s1 n1 il \/ sub_stop_bad a1 s1 n1 il) \/ (sub_start_bad a2 s2 n2 xl \/ sub_stop_bad a2 s2 n2 xl) \/
+  (sub_start_bad a3 s3 n3 z \/ sub_stop_bad a3 s3 n3 z) ->
+  sub_getitem (axis a1 s1 n1) (axis a2 s2 n2) (axis a3 s3 n3) il xl z = Raise IndexErr.
+Proof.
+  intros B. unfold sub_getitem.
+  destruct (sub_check_axis_outcome a1 s1 n1 Hs1 Hn1 il) as [-> | ->]; [| reflexivity]. cbn [bind].
+  destruct (sub_check_axis_outcome a2 s2 n2 Hs2 Hn2 xl) as [-> | ->]; [| reflexivity]. cbn [bind].
+  destruct (sub_check_axis_outcome a3 s3 n3 Hs3 Hn3 z) as [-> | ->]; [| reflexivity]. cbn [bind].
+  destruct B as [B | B].
+  { rewrite (sub_index_bad a1 s1 n1 Hs1 Hn1 il B). reflexivity. }
+  destruct (sub_get_index_subscripts il (axis a1 s1 n1)) as [[[? ?] ?] | e] eqn:E1.
+  2:{ cbn [bind]. f_equal. exact (sub_index_axis_raise a1 s1 n1 Hs1 Hn1 il e E1). }
+  cbn [bind]. destruct B as [B | B].
+  { rewrite (sub_index_bad a2 s2 n2 Hs2 Hn2 xl B). reflexivity. }
+  destruct (sub_get_index_subscripts xl (axis a2 s2 n2)) as [[[? ?] ?] | e] eqn:E2.
+  2:{ cbn [bind]. f_equal. exact (sub_index_axis_raise a2 s2 n2 Hs2 Hn2 xl e E2). }
+  cbn [bind]. rewrite (sub_index_bad a3 s3 n3 Hs3 Hn3 z B). reflexivity.
+Qed.
+End Subvolume3.
